@@ -29,6 +29,7 @@ func faultCount(c *sim.Ctx) int64 {
 }
 
 func TestWorker(t *testing.T) {
+	go apiWatchdog() // outside every bubble: real clock
 	led := sim.Engine{Run: runLedger, Nontrivial: nontrivialLedger}
 	crash := sim.Engine{Run: runCrash, Nontrivial: func(c *sim.Ctx) bool { return c.Counters["crash.states"] >= 4 }}
 	sim.WorkerMain(t, map[string]sim.Engine{
